@@ -52,10 +52,11 @@ StepOf(e) == CASE e.ev = "MRecvStartEngine" -> MRecvStartEngine
                [] e.ev = "DRecvChildExited" -> DRecvChildExited(e.a)
                [] e.ev = "DRecvExit" -> DRecvExit
                [] e.ev = "NRecvStartNodes" -> NRecvStartNodes(e.a, e.b)
-               [] e.ev = "NRecvStopNodes" -> NRecvStopNodes(e.a)
+               [] e.ev = "NRecvStopNodes" -> NRecvStopNodes(e.a, e.b)
                [] e.ev = "NRecvReset" -> NRecvReset(e.a)
                [] e.ev = "NRecvFailure" -> NRecvFailure(e.a)
-               [] e.ev = "NRecvExit" -> NRecvExit(e.a, e.b)
+               [] e.ev = "NRecvExit" -> \E src \in {"M", "D"} : \E r \in {"known", "unknown", ""} :
+                                           ExitTag(src, r) = e.b /\ NRecvExit(e.a, src, r)
                [] e.ev = "NWakeup" -> NWakeup(e.a)
                [] e.ev = "RcStop" -> RcStop
                [] e.ev = "RcReset" -> RcReset(e.a)
